@@ -32,6 +32,9 @@ pub enum Op {
     DeclQubit(u8),
     /// `int x = y;` — the initializer is a use that precedes the binding of x
     DeclInit(u8, u8),
+    /// `let x = y;` at the top level — an alias is a declaration of x whose right-hand side is
+    /// a use that precedes the binding of x
+    Alias(u8, u8),
     Use(u8),
     Assign(u8),
     CallGate(u8),
@@ -55,7 +58,7 @@ pub enum Op {
     Close,
 }
 
-pub const OPS: [Op; 34] = [
+pub const OPS: [Op; 37] = [
     Op::DeclInt(0),
     Op::DeclInt(1),
     Op::DeclConst(0),
@@ -74,6 +77,7 @@ pub const OPS: [Op; 34] = [
     Op::Gate(0),
     Op::Def(1),
     Op::Close,
+    Op::Alias(0, 1),
     Op::DeclInit(0, 0),
     Op::DeclInit(0, 1),
     Op::DeclInit(1, 0),
@@ -90,9 +94,11 @@ pub const OPS: [Op; 34] = [
     Op::IfUse(1),
     Op::BodyDecl(1, 0),
     Op::BodyDecl(3, 1),
+    Op::Alias(1, 0),
+    Op::Alias(0, 0),
 ];
-/// the first 26 operations are the quick alphabet; the thorough tier uses all 34
-pub const N_QUICK_OPS: usize = 26;
+/// the first 27 operations are the quick alphabet; the thorough tier uses all 37
+pub const N_QUICK_OPS: usize = 27;
 
 fn op_name(op: Op, names: &[&str; 2]) -> String {
     match op {
@@ -100,6 +106,7 @@ fn op_name(op: Op, names: &[&str; 2]) -> String {
         Op::DeclConst(n) => format!("const:{}", names[n as usize]),
         Op::DeclQubit(n) => format!("qubit:{}", names[n as usize]),
         Op::DeclInit(n, m) => format!("int:{}={}", names[n as usize], names[m as usize]),
+        Op::Alias(n, m) => format!("let:{}={}", names[n as usize], names[m as usize]),
         Op::Use(n) => format!("use:{}", names[n as usize]),
         Op::Assign(n) => format!("assign:{}", names[n as usize]),
         Op::CallGate(n) => format!("call:{}", names[n as usize]),
@@ -259,6 +266,30 @@ pub fn render(hist: &[Op], family: usize) -> Option<Rendered> {
                     nontrivial = true;
                 }
                 events.push(Expect { name: init.to_string(), range: (start, end), is_decl: false, target, gate_use: false, typed: false, deep: dist >= 1 });
+            }
+            Op::Alias(n, m) => {
+                // aliases are declared at the top level only (`let` inside a block is parsed as
+                // another, unsupported statement: a recorded finding of C05 / C16)
+                if !frames.is_empty() {
+                    return None;
+                }
+                // ... and only while the file has held declarations and compound statements so
+                // far (once an expression-like statement has been met, `let` is that other
+                // statement too: the recorded finding)
+                if hist[..pos].iter().any(|o| matches!(o, Op::Use(_) | Op::Assign(_) | Op::CallGate(_))) {
+                    return None;
+                }
+                let rhs = names[m as usize];
+                let (target, dist) = lookup(&scopes, rhs);
+                decl(&mut text, &mut events, &mut scopes, names[n as usize], "let ", " = ", &mut nontrivial);
+                let start = text.len();
+                text.push_str(rhs);
+                let end = text.len();
+                text.push_str(";\n");
+                if target.is_some() {
+                    nontrivial = true;
+                }
+                events.push(Expect { name: rhs.to_string(), range: (start, end), is_decl: false, target, gate_use: false, typed: false, deep: dist >= 1 });
             }
             Op::Use(n) | Op::Assign(n) | Op::CallGate(n) => {
                 let name = names[n as usize];
@@ -552,7 +583,12 @@ fn walk_stmt(s: &asg::Stmt, out: &mut Vec<Found>) {
         asg::Stmt::AnnotatedStmt(a) => walk_stmt(a.statement(), out),
         asg::Stmt::InputDeclaration(d) => out.push(Found { res: d.name().clone(), ty: None }),
         asg::Stmt::OutputDeclaration(d) => out.push(Found { res: d.name().clone(), ty: None }),
-        asg::Stmt::Alias(a) => out.push(Found { res: a.name().clone(), ty: None }),
+        asg::Stmt::Alias(a) => {
+            out.push(Found { res: a.name().clone(), ty: None });
+            if let asg::Expr::Identifier(r) = a.rhs().expression() {
+                out.push(Found { res: r.clone(), ty: None });
+            }
+        }
         _ => {}
     }
 }
